@@ -54,6 +54,16 @@ def build(n, edges, form, vint=False):
     sm = coo_array((S[rows, cols], (rows, cols)), shape=(n, n))   # row-major coo, as FullGrid produces
     hm = coo_array((h[rows, cols], (rows, cols)), shape=(n, n))
     fs, fh = form.split("/")
+    if fs == "csru":         # csr whose column indices are NOT sorted within a row (same order in both matrices)
+        def unsorted(m):
+            c = m.tocsr()
+            for r_ in range(c.shape[0]):
+                lo, hi = c.indptr[r_], c.indptr[r_ + 1]
+                c.indices[lo:hi] = c.indices[lo:hi][::-1].copy()
+                c.data[lo:hi] = c.data[lo:hi][::-1].copy()
+            c.has_sorted_indices = False
+            return c
+        return unsorted(sm), unsorted(hm), V, S, h
     sm = sm.tocsr() if fs == "csr" else sm
     hm = hm.tocsr() if fh == "csr" else hm
     return sm, hm, V, S, h
@@ -191,6 +201,13 @@ def cases(tier):
     for bits, edges in patterns(4):
         out.append({"n": 4, "bits": bits, "edges": edges, "letters": [0.0, 4800.0, -2500.0], "Ts": [273.15],
                     "forms": ["csr/coo"], "no_reuse": True})
+    # csr with unsorted column indices; energies that are nearly equal relative to a huge common offset
+    for n in (3, 4):
+        for bits, edges in patterns(n):
+            out.append({"n": n, "bits": bits, "edges": edges, "letters": [0.0, -3.7, 12.5], "Ts": [273.15], "forms": ["csru/csru"],
+                        "no_reuse": True})
+            out.append({"n": n, "bits": bits, "edges": edges, "letters": [400000.0, 400001.5, 399998.0], "Ts": [273.15],
+                        "forms": ["csr/coo"], "no_reuse": True})
     # energy differences below the cap but large in units of RT, at low and high temperature
     for n in (2, 3):
         for bits, edges in patterns(n):
